@@ -272,7 +272,9 @@ class PeriodicGrid(Grid):
         else:
             # SVD is used to construct the pseudo-inverse and to check if the
             # lattice vectors are not singular.
-            rcond = np.finfo(realvecs.dtype).eps * max(realvecs.shape)
+            # (integer lattice vectors are legitimate input: np.finfo only knows inexact types)
+            ftype = realvecs.dtype if np.issubdtype(realvecs.dtype, np.inexact) else np.float64
+            rcond = np.finfo(ftype).eps * max(realvecs.shape)
             U, S, Vt = np.linalg.svd(realvecs, full_matrices=False)
             if abs(S).max() * rcond > abs(S).min():
                 raise ValueError("The cell vectors are singular.")
